@@ -1,5 +1,6 @@
 import ast
 import itertools
+import unicodedata
 from abc import ABC, abstractmethod
 from ast import AST
 from collections import defaultdict
@@ -157,7 +158,7 @@ class BuiltinBroachingCodeGenerator(BroachingCodeGenerator):
                 args.append(sub_ast)
             elif isinstance(arg, KeywordArg):
                 sub_ast = self._gen_plan_element_dispatch(state, arg.element)
-                if iskeyword(arg.key) or arg.key == "__debug__":
+                if iskeyword(arg.key) or arg.key == "__debug__" or arg.key != unicodedata.normalize("NFKC", arg.key):
                     # keys of TypedDict and names of pydantic fields can be keywords, they are passed as ``**{'key': value}``
                     keywords.append(
                         ast.keyword(value=ast.Dict(keys=[ast.Constant(arg.key)], values=[sub_ast])),  # type: ignore[call-overload]
@@ -182,7 +183,8 @@ class BuiltinBroachingCodeGenerator(BroachingCodeGenerator):
     def _gen_accessor_element(self, state: GenState, element: AccessorElement[BroachingPlan]) -> AST:
         target_expr = self._gen_plan_element_dispatch(state, element.target)
         if isinstance(element.accessor, DescriptorAccessor):
-            if element.accessor.attr_name.isidentifier() and not iskeyword(element.accessor.attr_name):
+            attr_name = element.accessor.attr_name
+            if attr_name.isidentifier() and not iskeyword(attr_name) and attr_name == unicodedata.normalize("NFKC", attr_name):
                 return ast_substitute(
                     f"__target_expr__.{element.accessor.attr_name}",
                     target_expr=target_expr,
